@@ -399,3 +399,348 @@ Proof.
   intros n tr c k K Hr HK Hc. apply run_reach in Hr. destruct (winv_reach _ _ Hr _ _ HK) as (W1 & W2).
   apply W2. apply W1 in Hc. congruence.
 Qed.
+
+(* ---------- 3. indices are valid; who can be blocked, and by whom ---------- *)
+Definition pending (p : spc) : list nat :=
+  match p with SIdle => [] | SLoop r _ _ => r | SSel l _ r _ _ => l :: r end.
+Definition snap_of (p : spc) : list nat :=
+  match p with SIdle => [] | SLoop _ _ sn => sn | SSel _ _ _ _ sn => sn end.
+
+Definition vinv (c : config) : Prop :=
+  (forall l, In l (blist c) -> l < List.length (ls c)) /\
+  (forall s X l, nth_error (ss c) s = Some X -> In l (pending (s_pc X) ++ snap_of (s_pc X)) -> l < List.length (ls c)).
+
+Lemma step_ls_length : forall c a c', step c a = Some c' -> List.length (ls c) <= List.length (ls c').
+Proof.
+  intros c a c' H. destruct a; simpl in H; break_step H; unfold set_s, set_l; simpl; rewrite ?upd_length, ?app_length; simpl; lia.
+Qed.
+
+Lemma vinv_step : forall c a c', vinv c -> step c a = Some c' -> vinv c'.
+Proof.
+  intros c a c' (I1 & I2) H. pose proof (step_ls_length _ _ _ H) as Hlen.
+  split.
+  - intros l Hl. eapply Nat.lt_le_trans; [|exact Hlen].
+    destruct a; simpl in H; break_step H; unfold set_s, set_l in *; simpl in *; auto.
+    + destruct gc; auto. apply filter_In in Hl. apply I1. tauto.
+    + apply in_app_or in Hl. destruct Hl as [Hl|[<-|[]]]; auto. eapply nth_some_lt; eauto.
+  - intros s X l HX Hl. eapply Nat.lt_le_trans; [|exact Hlen].
+    destruct a; simpl in H; break_step H; unfold set_s, set_l in *; simpl in *;
+      try solve [eapply I2; eauto];
+      (apply nth_upd in HX; destruct HX as [(-> & -> & _)|(_ & HX)]; [|eapply I2; eauto]); simpl in *.
+    all: try solve [apply in_app_or in Hl; destruct Hl; auto].
+    all: try solve [simpl in Hl; tauto].
+    all: eapply I2; [eassumption|]; try match goal with E : s_pc _ = _ |- _ => rewrite E end;
+         simpl in Hl |- *; try tauto; auto.
+Qed.
+
+Lemma vinv_reach : forall n c, reach n c -> vinv c.
+Proof.
+  induction 1.
+  - split; simpl; intros; try tauto. apply init_ss in H. subst. simpl in H0. tauto.
+  - eapply vinv_step; eauto.
+Qed.
+
+Definition blocked_sender (c : config) (s : nat) : Prop :=
+  step c (LCall s) = None /\ step c (LRLock s) = None /\ step c (LSelSendCtx s) = None /\
+  step c (LSelListenCtx s) = None /\ step c (LDeliver s) = None /\ step c (LFinish s) = None.
+
+(* A sender that cannot move is either waiting for the read lock of a listener whose stop has
+   asked for the lock (that listener is cancelled, and by cancel_closes the wait ends after at
+   most mu helper steps, all of them enabled), or it is in the select of a listener that is NOT
+   cancelled, its own context is not cancelled, and that listener's consumer is not receiving
+   (backpressure of a live subscription).  In particular a cancelled or abandoned listener
+   never holds a sender in its select, and nothing else ever blocks a sender. *)
+Theorem others_unaffected : forall n tr c s X,
+  run (init n) tr = Some c -> nth_error (ss c) s = Some X -> blocked_sender c s ->
+  (exists l r g sn L, s_pc X = SLoop (l :: r) g sn /\ nth_error (ls c) l = Some L /\
+                      l_w L = WPending /\ l_cancel L = true)
+  \/ (exists l o r g sn L, s_pc X = SSel l o r g sn /\ nth_error (ls c) l = Some L /\
+                      l_cancel L = false /\ s_cancel X = false /\ (l_rcv L = false \/ o = false)).
+Proof.
+  intros n tr c s X Hr HX (B1 & B2 & B3 & B4 & B5 & B6). apply run_reach in Hr.
+  pose proof (vinv_reach _ _ Hr) as (_ & V). pose proof (winv_reach _ _ Hr) as W.
+  simpl in *. rewrite HX in *. destruct (s_pc X) eqn:Hpc.
+  - discriminate.
+  - destruct rest as [|l r]; [discriminate|].
+    assert (Hl : l < List.length (ls c)). { eapply V; eauto. rewrite Hpc. simpl. auto. }
+    destruct (nth_error (ls c) l) as [L|] eqn:HL; [|apply nth_error_None in HL; lia].
+    left. exists l, r, gc, snap, L. destruct (l_w L) eqn:EW; try discriminate.
+    repeat split; auto. apply (W _ _ HL). congruence.
+  - assert (Hl : l < List.length (ls c)). { eapply V; eauto. rewrite Hpc. simpl. auto. }
+    destruct (nth_error (ls c) l) as [L|] eqn:HL; [|apply nth_error_None in HL; lia].
+    right. exists l, chopen, rest, gc, snap, L.
+    destruct (l_cancel L) eqn:EC; [discriminate|]. destruct (s_cancel X) eqn:ES; [discriminate|].
+    repeat split; auto. destruct chopen; auto. destruct (l_rcv L); [discriminate|auto].
+Qed.
+
+(* ---------- 4. delivery ---------- *)
+(* how listener k of the new configuration relates to the old one *)
+Definition lrel (c : config) (a : label) (k : nat) (K K' : lstn) : Prop :=
+  (l_cancel K' = l_cancel K \/ (a = LCancel k /\ l_cancel K' = true)) /\
+  (l_reg K' = l_reg K \/ (a = LRegister k /\ l_reg K' = true /\ l_reg K = false)) /\
+  (l_log K' = l_log K \/
+   exists s X, a = LDeliver s /\ nth_error (ss c) s = Some X /\ sel_on k (s_pc X) = true /\
+               l_log K' = (s, s_calls X) :: l_log K).
+
+Lemma ls_back : forall c a c' k K', step c a = Some c' -> nth_error (ls c') k = Some K' ->
+  (a = LListen /\ K' = new_listener /\ k = List.length (ls c)) \/
+  (exists K, nth_error (ls c) k = Some K /\ lrel c a k K K').
+Proof.
+  intros c a c' k K' H HK'. unfold lrel.
+  destruct a; simpl in H; break_step H; unfold set_s, set_l in *; cbn [ls] in *;
+    try solve [right; exists K'; split; auto];
+    try (apply nth_app_new in HK'; destruct HK' as [HK'|(-> & ->)]; [right; exists K'; split; auto | left; auto]);
+    try (apply nth_upd in HK'; destruct HK' as [(-> & -> & _)|(_ & HK')];
+         [right; eexists; split; [eassumption|]; cbn [l_cancel l_reg l_log]; repeat split; auto
+         |right; exists K'; split; auto]).
+  right. exists s, s0. rewrite Heqs1. simpl. rewrite Nat.eqb_refl. auto.
+Qed.
+
+(* forward: cancel and registration flags only go up, logs only grow *)
+Lemma ls_forward : forall c a c' k K, step c a = Some c' -> nth_error (ls c) k = Some K ->
+  exists K', nth_error (ls c') k = Some K' /\ lrel c a k K K'.
+Proof.
+  intros c a c' k K H HK. destruct (nth_ls_step _ _ _ _ _ H HK) as (K' & HK' & _).
+  exists K'. split; auto. destruct (ls_back _ _ _ _ _ H HK') as [(-> & _ & ->)|(K0 & HK0 & R)].
+  - apply nth_some_lt in HK. lia.
+  - rewrite HK in HK0. inversion HK0. subst. auto.
+Qed.
+
+(* listeners registered and not cancelled are in Bus.listeners *)
+Definition rinv (c : config) : Prop := forall k K, nth_error (ls c) k = Some K ->
+  l_reg K = true -> l_cancel K = false -> In k (blist c).
+
+Lemma blist_step : forall c a c' k, step c a = Some c' -> In k (blist c) -> alive c k = true -> In k (blist c').
+Proof.
+  intros c a c' k H Hin Ha. destruct a; simpl in H; break_step H; unfold set_s, set_l; simpl; auto.
+  - destruct gc; auto. apply filter_In. auto.
+  - apply in_or_app. auto.
+Qed.
+
+Lemma rinv_step : forall c a c', rinv c -> step c a = Some c' -> rinv c'.
+Proof.
+  unfold rinv. intros c a c' I H k K' HK' Hreg Hc.
+  destruct (ls_back _ _ _ _ _ H HK') as [(-> & -> & ->)|(K & HK & (R1 & R2 & _))].
+  - discriminate.
+  - destruct R1 as [R1|(_ & R1)]; [|congruence].
+    destruct R2 as [R2|(-> & _ & _)].
+    + apply (blist_step _ _ _ _ H).
+      * apply (I _ _ HK); congruence.
+      * unfold alive. rewrite HK. rewrite <- R1, Hc. auto.
+    + simpl in H. rewrite HK in H. destruct (l_reg K); inversion H. simpl. apply in_or_app. simpl. auto.
+Qed.
+
+Lemma rinv_reach : forall n c, reach n c -> rinv c.
+Proof.
+  induction 1.
+  - intros k K HK. destruct k; discriminate.
+  - eapply rinv_step; eauto.
+Qed.
+
+(* every listener of the snapshot that the current Send is done with was cancelled or got the event *)
+Definition served (c : config) (s : nat) (n : nat) (l : nat) : Prop :=
+  exists L, nth_error (ls c) l = Some L /\ (l_cancel L = true \/ In (s, n) (l_log L)).
+
+Definition dinv (c : config) : Prop := forall s X l, nth_error (ss c) s = Some X ->
+  In l (snap_of (s_pc X)) -> In l (pending (s_pc X)) \/ served c s (s_calls X) l.
+
+Lemma served_step : forall c a c' s n l, step c a = Some c' -> served c s n l -> served c' s n l.
+Proof.
+  intros c a c' s n l H (L & HL & P). destruct (ls_forward _ _ _ _ _ H HL) as (L' & HL' & (R1 & _ & R3)).
+  exists L'. split; auto. destruct P as [P|P].
+  - left. destruct R1 as [R1|(_ & R1)]; congruence.
+  - right. destruct R3 as [R3|(s1 & X1 & _ & _ & _ & R3)]; rewrite R3; simpl; auto.
+Qed.
+
+Lemma dinv_step : forall c a c', dinv c -> step c a = Some c' -> dinv c'.
+Proof.
+  unfold dinv. intros c a c' I H s X' l HX' Hsnap. pose proof H as H0.
+  assert (Other : nth_error (ss c) s = Some X' -> In l (pending (s_pc X')) \/ served c' s (s_calls X') l).
+  { intros HX. destruct (I _ _ _ HX Hsnap) as [P|P]; auto. right. eapply served_step; eauto. }
+  destruct a; simpl in H; break_step H; unfold set_s, set_l in *; cbn [ss ls] in *; auto;
+    (apply nth_upd in HX'; destruct HX' as [(-> & -> & _)|(_ & HX')]; [|auto]);
+    cbn [with_pc s_pc s_calls snap_of pending] in *;
+    try (match goal with E : nth_error (ss c) _ = Some ?X |- _ =>
+           pose proof (I _ _ l E) as IX; match goal with E2 : s_pc X = _ |- _ => rewrite E2 in IX end;
+           cbn [snap_of pending] in IX; specialize (IX Hsnap) end).
+  - left; auto.
+  - destruct IX as [P|P]; auto; right; eapply served_step; eauto.
+  - destruct IX as [P|P]; auto; right; eapply served_step; eauto.
+  - destruct IX as [P|P]; auto; right; eapply served_step; eauto.
+  - destruct Hsnap.
+  - destruct IX as [[<-|P]|P]; auto.
+    right. eexists. split; [eassumption|]. auto.
+  - destruct IX as [[<-|P]|P]; auto.
+    + right. eexists. cbn [ls]. split; [apply nth_upd_eq; eapply nth_some_lt; eauto|]. simpl. auto.
+    + right. eapply served_step; eauto.
+  - destruct Hsnap.
+  - destruct (I _ _ l Heqo Hsnap) as [P|P]; auto; right; eapply served_step; eauto.
+Qed.
+
+Lemma dinv_reach : forall n c, reach n c -> dinv c.
+Proof.
+  induction 1.
+  - intros s X l HX. apply init_ss in HX. subst. simpl. tauto.
+  - eapply dinv_step; eauto.
+Qed.
+
+(* An event reaches every listener that is live for the whole Send:
+   (1) the snapshot taken by a Send contains every listener whose Listen has returned and whose
+       context is not cancelled at that moment;
+   (2) when a Send is about to return true, every listener of its snapshot that is still not
+       cancelled has received the event of this call. *)
+Theorem delivered_when_live : forall n tr c s X,
+  run (init n) tr = Some c -> nth_error (ss c) s = Some X ->
+  (forall c' X', step c (LCall s) = Some c' -> nth_error (ss c') s = Some X' ->
+     forall k K, nth_error (ls c) k = Some K -> l_reg K = true -> l_cancel K = false ->
+       In k (snap_of (s_pc X'))) /\
+  (forall g sn, s_pc X = SLoop [] g sn ->
+     forall l, In l sn -> exists L, nth_error (ls c) l = Some L /\
+       (l_cancel L = true \/ In (s, s_calls X) (l_log L))).
+Proof.
+  intros n tr c s X Hr HX. apply run_reach in Hr. split.
+  - intros c' X' Hs HX' k K HK Hreg Hc. pose proof (rinv_reach _ _ Hr _ _ HK Hreg Hc) as Hin.
+    simpl in Hs. rewrite HX in Hs. destruct (s_pc X); try discriminate. inversion Hs; subst; clear Hs.
+    simpl in HX'. rewrite nth_upd_eq in HX' by (eapply nth_some_lt; eauto). inversion HX'. subst. simpl. auto.
+  - intros g sn Hpc l Hl. pose proof (dinv_reach _ _ Hr _ _ l HX) as D. rewrite Hpc in D. simpl in D.
+    destruct (D Hl) as [[]|P]. exact P.
+Qed.
+
+(* ---------- 5. at most once, in per-sender order ---------- *)
+Fixpoint sorted_log (log : list (nat * nat)) : Prop :=
+  match log with
+  | [] => True
+  | (s, n) :: r => (forall m, In (s, m) r -> m < n) /\ sorted_log r
+  end.
+
+Lemma ss_back : forall c a c' s X', step c a = Some c' -> nth_error (ss c') s = Some X' ->
+  exists X, nth_error (ss c) s = Some X /\
+    ((a = LCall s /\ s_calls X' = S (s_calls X) /\ pending (s_pc X') = blist c)
+     \/ (s_calls X' = s_calls X /\ pending (s_pc X') = pending (s_pc X))
+     \/ (s_calls X' = s_calls X /\ exists k, sel_on k (s_pc X) = true /\ pending (s_pc X) = k :: pending (s_pc X'))
+     \/ (s_calls X' = s_calls X /\ pending (s_pc X') = [])).
+Proof.
+  intros c a c' s X' H HX'.
+  destruct a; simpl in H; break_step H; unfold set_s, set_l in *; cbn [ss] in *;
+    try solve [exists X'; split; auto];
+    (apply nth_upd in HX'; destruct HX' as [(-> & -> & _)|(_ & HX')]; [|exists X'; split; auto]);
+    eexists; (split; [eassumption|]); cbn [with_pc s_pc s_calls pending];
+    try match goal with E : s_pc _ = _ |- _ => rewrite E end; cbn [pending sel_on]; auto.
+  - right. right. left. split; auto. exists l. rewrite Nat.eqb_refl. auto.
+  - right. right. left. split; auto. exists l. rewrite Nat.eqb_refl. auto.
+Qed.
+
+Definition oinv (c : config) : Prop :=
+  (forall l L, nth_error (ls c) l = Some L -> sorted_log (l_log L)) /\
+  (forall s X l L m, nth_error (ss c) s = Some X -> nth_error (ls c) l = Some L -> In (s, m) (l_log L) ->
+     m <= s_calls X /\ (In l (pending (s_pc X)) -> m < s_calls X)) /\
+  (forall s X, nth_error (ss c) s = Some X -> NoDup (pending (s_pc X))) /\
+  NoDup (blist c) /\
+  (forall k, In k (blist c) -> exists K, nth_error (ls c) k = Some K /\ l_reg K = true).
+
+Lemma sel_on_pending : forall k p, sel_on k p = true -> In k (pending p).
+Proof. intros k p H. destruct (sel_on_true _ _ H) as (o & r & g & sn & ->). simpl. auto. Qed.
+
+Lemma sel_on_unique : forall k l p, sel_on k p = true -> sel_on l p = true -> k = l.
+Proof.
+  intros k l p H1 H2. destruct p; simpl in *; try discriminate.
+  apply Nat.eqb_eq in H1. apply Nat.eqb_eq in H2. congruence.
+Qed.
+
+Lemma NoDup_snoc : forall {A} (l : list A) k, NoDup l -> ~ In k l -> NoDup (l ++ [k]).
+Proof.
+  induction l; simpl; intros k Hn Hi.
+  - constructor; auto; constructor.
+  - inversion Hn; subst. constructor.
+    + intros Hin. apply in_app_or in Hin. destruct Hin as [Hin|[->|[]]]; auto.
+    + apply IHl; auto.
+Qed.
+
+Lemma oinv_step : forall c a c', oinv c -> step c a = Some c' -> oinv c'.
+Proof.
+  intros c a c' (O1 & O2 & O3 & O4 & O5) H. split; [|split; [|split; [|split]]].
+  - (* logs stay sorted *)
+    intros l L' HL'. destruct (ls_back _ _ _ _ _ H HL') as [(_ & -> & _)|(K & HK & (_ & _ & R3))].
+    + simpl. auto.
+    + destruct R3 as [->|(s1 & X1 & _ & HX1 & Hsel & ->)]; [eapply O1; eauto|].
+      simpl. split; [|eapply O1; eauto]. intros m Hm.
+      apply (O2 _ _ _ _ _ HX1 HK Hm). apply sel_on_pending. auto.
+  - (* bounds *)
+    intros s X' l L' m HX' HL' Hin.
+    destruct (ls_back _ _ _ _ _ H HL') as [(_ & -> & _)|(K & HK & (_ & _ & R3))]; [destruct Hin|].
+    destruct (ss_back _ _ _ _ _ H HX') as (X & HX & SB).
+    assert (Old : In (s, m) (l_log K) -> m <= s_calls X' /\ (In l (pending (s_pc X')) -> m < s_calls X')).
+    { intros Hold. destruct (O2 _ _ _ _ _ HX HK Hold) as (B1 & B2).
+      destruct SB as [(_ & Hc & _)|[(Hc & Hp)|[(Hc & k & _ & Hp)|(Hc & Hp)]]]; rewrite Hc.
+      - split; [lia|]. intros _. lia.
+      - rewrite Hp. auto.
+      - split; auto. intros Hl. apply B2. rewrite Hp. simpl. auto.
+      - rewrite Hp. split; auto. intros []. }
+    destruct R3 as [R3|(s1 & X1 & Ha & HX1 & Hsel & R3)]; rewrite R3 in Hin; auto.
+    destruct Hin as [Heq|Hin]; auto. inversion Heq; subst s1 m. clear Heq.
+    rewrite HX in HX1. inversion HX1; subst X1. clear HX1.
+    destruct SB as [(Ha' & _)|[(Hc & Hp)|[(Hc & k & Hk & Hp)|(Hc & Hp)]]].
+    + congruence.
+    + (* the pc of a delivering sender changes *) exfalso.
+      subst a. simpl in H. rewrite HX in H. destruct (sel_on_true _ _ Hsel) as (o & r & g & sn & Hpc).
+      rewrite Hpc in H. destruct o; try discriminate. destruct (nth_error (ls c) l); try discriminate.
+      destruct (l_rcv l0); try discriminate. inversion H; subst c'. clear H. simpl in HX'.
+      rewrite nth_upd_eq in HX' by (eapply nth_some_lt; eauto). inversion HX'; subst X'.
+      rewrite Hpc in Hp. simpl in Hp. specialize (O3 _ _ HX). rewrite Hpc in O3. simpl in O3.
+      inversion O3; subst. apply (f_equal (@List.length nat)) in Hp. simpl in Hp. lia.
+    + rewrite Hc. split; auto. intros Hl. exfalso.
+      pose proof (sel_on_unique _ _ _ Hk Hsel) as ->. specialize (O3 _ _ HX). rewrite Hp in O3.
+      inversion O3; auto.
+    + rewrite Hc. split; auto. rewrite Hp. intros [].
+  - (* each listener at most once in what is left of the snapshot *)
+    intros s X' HX'. destruct (ss_back _ _ _ _ _ H HX') as (X & HX & SB). specialize (O3 _ _ HX).
+    destruct SB as [(Ha & _ & Hp)|[(_ & Hp)|[(_ & k & _ & Hp)|(_ & Hp)]]]; rewrite ?Hp in *; auto.
+    + inversion O3; auto.
+    + constructor.
+  - (* Bus.listeners has no duplicates *)
+    destruct a; simpl in H; break_step H; unfold set_s, set_l; simpl; auto.
+    + destruct gc; auto. apply NoDup_filter. auto.
+    + apply NoDup_snoc; auto.
+      intros Hin. destruct (O5 _ Hin) as (K & HK & Hr). congruence.
+  - intros k Hin.
+    assert (Hold : In k (blist c) -> exists K, nth_error (ls c') k = Some K /\ l_reg K = true).
+    { intros Hi. destruct (O5 _ Hi) as (K & HK & Hr).
+      destruct (ls_forward _ _ _ _ _ H HK) as (K' & HK' & (_ & R2 & _)). exists K'. split; auto.
+      destruct R2 as [R2|(_ & R2 & _)]; congruence. }
+    destruct a; simpl in H; pose proof H as H0; break_step H; unfold set_s, set_l in *; simpl in *; auto.
+    + destruct gc; auto. apply filter_In in Hin. apply Hold. tauto.
+    + apply in_app_or in Hin. destruct Hin as [Hin|[<-|[]]]; auto.
+      eexists. split; [apply nth_upd_eq; eapply nth_some_lt; eauto|]. auto.
+Qed.
+
+Lemma oinv_reach : forall n c, reach n c -> oinv c.
+Proof.
+  induction 1.
+  - split; [|split; [|split; [|split]]]; simpl.
+    + intros l L HL. destruct l; discriminate.
+    + intros s X l L m _ HL. destruct l; discriminate.
+    + intros s X HX. apply init_ss in HX. subst. simpl. constructor.
+    + constructor.
+    + intros k [].
+  - eapply oinv_step; eauto.
+Qed.
+
+Lemma sorted_log_nodup : forall log, sorted_log log -> NoDup log.
+Proof.
+  induction log as [|[s n] r IH]; simpl; intros H; constructor.
+  - intros Hin. destruct H as (H & _). specialize (H _ Hin). lia.
+  - apply IH. tauto.
+Qed.
+
+(* Every listener's log (newest first), for every schedule: the call numbers of one sender are
+   strictly decreasing towards the past - events of one sender arrive in the order of its Send
+   calls and none arrives twice - and only events of calls that were made appear. *)
+Theorem exactly_once_in_order : forall n tr c l L,
+  run (init n) tr = Some c -> nth_error (ls c) l = Some L ->
+  sorted_log (l_log L) /\ NoDup (l_log L) /\
+  (forall s X m, nth_error (ss c) s = Some X -> In (s, m) (l_log L) -> m <= s_calls X).
+Proof.
+  intros n tr c l L Hr HL. apply run_reach in Hr. destruct (oinv_reach _ _ Hr) as (O1 & O2 & _).
+  split; [eapply O1; eauto|]. split; [apply sorted_log_nodup; eapply O1; eauto|].
+  intros s X m HX Hin. apply (O2 _ _ _ _ _ HX HL Hin).
+Qed.
